@@ -12,7 +12,9 @@ RULE = (
     "MolGen.attach_other with harness-edited descriptor copies (=/# orders, incompatible pairs, out-of-range indices). Every attach_other call is checked "
     "by a snapshot/postcondition contract (both descriptors open at entry and mutually compatible by the reference rule, exactly one new bond, between "
     "the two descriptor atoms after the index shift, with the prescribed order, exactly the two descriptors removed); every returned molecule's "
-    "inter-residue bonds must be explained one-to-one by the attach events of its deep-copy lineage. Non-trivial: a generation with >= 3 attach events "
+    "inter-residue bonds must be explained one-to-one by the attach events of its deep-copy lineage, and -- independently of the library's parser -- must "
+    "join two atoms on which the NOTATION (read by the reference dummy-atom reader from the printed AST) writes mutually compatible descriptors of "
+    "the bond's order, no atom carrying more inter-residue bonds than descriptors. Non-trivial: a generation with >= 3 attach events "
     "of >= 2 descriptor types; distinct by (input, stream)."
 )
 ASSUMPTIONS = ["non-single descriptors are not generable on this tree (known C02 finding), so =/# bonds are driven through attach_other directly"]
